@@ -310,7 +310,7 @@ func main() {
 	if c.LoadReplay(&rp) && rp.Manager != nil {
 		res := updsim.RunHistory(*rp.Manager)
 		fmt.Printf("replay: %s\nreplay: trace: %s\n", *rp.Manager, updsim.TraceString(res.Trace))
-		for _, f := range updsim.CheckAtMostOnce(res) {
+		for _, f := range append(updsim.CheckAtMostOnce(res), updsim.CheckInOrder(res, nil)...) {
 			fmt.Printf("replay: oracle %s: %s\n", f.Sig, f.Desc)
 			c.Violate(f.Sig, f.Desc, -1, 0, map[string]interface{}{"manager": rp.Manager})
 		}
@@ -481,7 +481,7 @@ func main() {
 		runOne(kind, Hist{init, ops})
 	}
 	managerLevel(c)
-	c.Obs.Rule = "histories of <=30 ops (Handle/SetState/ClearGaps) over a synthetic server log tiling [base,base+R), R<=40, with multi-count, overlapping and zero-count variants, loss, duplication, reordering, late fills and interleaved differences; 1/12 malformed (zero/negative positions, negative counts, backward SetState: correspondence and no-panic only); thorough adds all 6^6 histories over a 3-update log; non-trivial = distinct history in which an opened gap is later filled by arrival (one apply call with >=2 updates) or a difference arrives while updates are pending; plus manager-level histories (real updates.Manager, fake server, see C02) checked for at-most-once delivery at the handler"
+	c.Obs.Rule = "histories of <=30 ops (Handle/SetState/ClearGaps) over a synthetic server log tiling [base,base+R), R<=40, with multi-count, overlapping and zero-count variants, loss, duplication, reordering, late fills and interleaved differences; 1/12 malformed (zero/negative positions, negative counts, backward SetState: correspondence and no-panic only); thorough adds all 6^6 histories over a 3-update log; non-trivial = distinct history in which an opened gap is later filled by arrival (one apply call with >=2 updates) or a difference arrives while updates are pending; plus manager-level histories (real updates.Manager, fake server, see C02) checked for at-most-once and in-order delivery at the handler (on every prefix of the real trace; positions served by the difference in progress count as covered)"
 	c.Finish()
 }
 
@@ -534,7 +534,7 @@ func managerLevel(c *hx.Ctx) {
 			continue
 		}
 		seen := map[string]bool{}
-		for _, f := range updsim.CheckAtMostOnce(res) {
+		for _, f := range append(updsim.CheckAtMostOnce(res), updsim.CheckInOrder(res, nil)...) {
 			if !seen[f.Sig] {
 				seen[f.Sig] = true
 				c.Violate(f.Sig, f.Desc+" | trace: "+updsim.TraceString(res.Trace)+" | "+res.H.String(), -1, 0, map[string]interface{}{"manager": res.H})
